@@ -1,5 +1,11 @@
 """C39 The receive-pack server applies only consistent ref updates (DESIGN.md §4.C39)."""
+import hashlib
 import itertools
+import os
+import random
+import shutil
+import struct
+import subprocess
 from vf.core import Suite, coq_bool
 from vf.gen import pick_weighted
 from props.b10util import parse_expanded as parse_out, coq_ops, coq_universe
@@ -16,6 +22,7 @@ MODELLED = ("plumbing/transport/receive_pack.go (with the three fix commits): Re
             "context cancellation; concurrency of two pushes (every update is one storer call: C16)")
 TRUSTED = [
     "C-impl: transport.ReceivePack driven by harness/cmd/c39 (wire-format request built by the harness, packs by packfile.Encoder) over memory / memfs / osfs stores vs Model/ReceivePack.c39_run",
+    "C-git: the consistency rule (old value current and new object present) vs `git receive-pack --stateless-rpc` (git 2.39.5) on generated pushes to real repositories, 40 per quick run",
     "oracle (python, props/C39.py): replays the reported per-command outcomes on the initial references and checks old-value agreement, presence of the new object, one status per command and the final references",
 ]
 ASSUMPTIONS = ["the storer behaves like the abstract store on Reference / SetReference / CheckAndSetReference / RemoveReference / HasEncodedObject (C17)",
@@ -54,12 +61,25 @@ class Main(Suite):
     name = "main"
     go_cmd = "c39"
     coq_imports = "From GoGit Require Import Spec.AStore Model.ReceivePack."
-    quick_n = 500
-    thorough_n = 8000
+    quick_n = 400
+    thorough_n = 2500
     coq_chunk = 250
 
-    def gen(self, rng, n, tier):
+    def exhaustive(self):
+        """small scope, thorough tier: every list of <= 2 commands over 2 names x old in {zero, o0, o1} x new in
+        {zero, o0, o3 (in the pack), o5 (nowhere)} on every initial state of the two names in {absent, o0}"""
+        import itertools
+        one = [[nm, o, w] for nm in (0, 1) for o in (-1, 0, 1) for w in (-1, 0, 3, 5)]
         cases = []
+        for st in itertools.product([None, 0], repeat=2):
+            init = [["setobj", 0], ["setobj", 1]] + [["setref", nm, ["h", v]] for nm, v in enumerate(st) if v is not None]
+            for cmds in [[c] for c in one] + [[a, b] for a in one for b in one]:
+                cases.append({"bucket": "exhaustive-%d" % len(cmds), "base": "memory" if len(cases) % 4 else "memfs", "names": NAMES,
+                              "objs": OBJS, "init": init, "report": True, "cmds": [list(c) for c in cmds], "pack": [3], "reject": False})
+        return cases
+
+    def gen(self, rng, n, tier):
+        cases = self.exhaustive() if tier == "thorough" else []
         buckets = [(4, "consistent"), (3, "stale"), (3, "missing"), (3, "dups"), (4, "mixed"), (1, "noreport"),
                    (1, "reject"), (1, "nopack"), (1, "invalid"), (1, "symbolic")]
         for _ in range(n):
@@ -232,12 +252,111 @@ class Main(Suite):
             return "duplicate-names-collapse"
         return None
 
+    # ------------------------------------------------------------ C-git: the rule against git receive-pack
+    def cgit(self, ctx, n):
+        """the rule the oracle and Proofs/C39.spec_apply use (apply a command iff its old value is current and its
+        new object is present) against `git receive-pack --stateless-rpc` on real repositories: commits c0, c1 (child
+        of c0) in the repository, c2 only in the pushed pack (or nowhere), names refs/heads/a, refs/heads/b"""
+        env = dict(os.environ, GIT_AUTHOR_NAME="a", GIT_AUTHOR_EMAIL="a@b", GIT_COMMITTER_NAME="a", GIT_COMMITTER_EMAIL="a@b",
+                   GIT_AUTHOR_DATE="1700000000 +0000", GIT_COMMITTER_DATE="1700000000 +0000", GIT_CONFIG_NOSYSTEM="1", HOME=ctx.tmp)
+
+        def git(args, cwd, inp=None):
+            p = subprocess.run(["git"] + args, cwd=cwd, input=inp, stdout=subprocess.PIPE, stderr=subprocess.PIPE, env=env, timeout=60)
+            if p.returncode != 0:
+                raise RuntimeError("git %s: %s" % (args, p.stderr[:200]))
+            return p.stdout
+        src = os.path.join(ctx.tmp, "cgit-src.git")
+        tmpl = os.path.join(ctx.tmp, "cgit-tmpl.git")
+        git(["init", "-q", "--bare", src], ctx.tmp)
+        tree = git(["hash-object", "-t", "tree", "-w", "--stdin"], src, b"").decode().strip()
+        c0 = git(["commit-tree", "-m", "c0", tree], src).decode().strip()
+        c1 = git(["commit-tree", "-m", "c1", "-p", c0, tree], src).decode().strip()
+        c2 = git(["commit-tree", "-m", "c2", tree], src).decode().strip()
+        pack_c2 = git(["pack-objects", "--stdout", "-q"], src, (c2 + "\n").encode())
+        body = b"PACK" + struct.pack(">II", 2, 0)
+        pack_empty = body + hashlib.sha1(body).digest()
+        git(["init", "-q", "--bare", tmpl], ctx.tmp)
+        for o in (tree, c0, c1):
+            d = os.path.join(tmpl, "objects", o[:2])
+            os.makedirs(d, exist_ok=True)
+            shutil.copy(os.path.join(src, "objects", o[:2], o[2:]), os.path.join(d, o[2:]))
+        ids = {0: c0, 1: c1, 2: c2, 3: "dead" * 10, -1: "0" * 40}
+        names = ["refs/heads/a", "refs/heads/b"]
+        rng = random.Random(ctx.seed + 39)
+        ran = mism = 0
+        for k in range(n):
+            st = {nm: rng.choice([None, 0, 1]) for nm in (0, 1)}
+            with_c2 = rng.random() < 0.6
+            present = {0, 1} | ({2} if with_c2 else set())
+            cmds = []
+            for nm in rng.sample([0, 1], rng.choice([1, 2])):
+                cur = st[nm] if st[nm] is not None else -1
+                old = cur if rng.random() < 0.6 else rng.choice([-1, 0, 1, 2])
+                new = rng.choice([-1, 0, 1, 2, 2, 3])
+                if old == -1 and new == -1:
+                    new = 0
+                cmds.append((nm, old, new))
+            # the rule
+            want, refs = {}, dict(st)
+            for nm, old, new in cmds:
+                cur = refs[nm] if refs[nm] is not None else -1
+                ok = cur == old and (new == -1 or new in present)
+                want[nm] = ok
+                if ok:
+                    refs[nm] = None if new == -1 else new
+            # git
+            repo = os.path.join(ctx.tmp, "cgit-%d.git" % k)
+            shutil.copytree(tmpl, repo)
+            for nm, v in st.items():
+                if v is not None:
+                    os.makedirs(os.path.join(repo, "refs", "heads"), exist_ok=True)
+                    open(os.path.join(repo, names[nm]), "w").write(ids[v] + "\n")
+            req = b""
+            for i, (nm, old, new) in enumerate(cmds):
+                line = ("%s %s %s" % (ids[old], ids[new], names[nm])).encode() + (b"\0report-status" if i == 0 else b"")
+                req += b"%04x" % (len(line) + 4) + line
+            req += b"0000"
+            if any(new != -1 for _, _, new in cmds):
+                req += pack_c2 if with_c2 else pack_empty
+            p = subprocess.run(["git", "receive-pack", "--stateless-rpc", repo], input=req, stdout=subprocess.PIPE,
+                               stderr=subprocess.PIPE, env=env, timeout=60)
+            got, out = {}, p.stdout
+            while len(out) >= 4:
+                ln = int(out[:4], 16)
+                if ln == 0:
+                    break
+                f = out[4:ln].decode("utf-8", "replace").strip().split(" ")
+                out = out[ln:]
+                if f[0] in ("ok", "ng") and f[1] in names:
+                    got[names.index(f[1])] = f[0] == "ok"
+            gitrefs = {}
+            for nm in (0, 1):
+                fp = os.path.join(repo, names[nm])
+                gitrefs[nm] = None
+                if os.path.exists(fp):
+                    h = open(fp).read().strip()
+                    gitrefs[nm] = [x for x, y in ids.items() if y == h][0]
+            shutil.rmtree(repo, ignore_errors=True)
+            ran += 1
+            if got != want or gitrefs != refs:
+                mism += 1
+                ctx.notes.append("spec_mismatch (rule vs git receive-pack): state %r pack_has_c2=%r cmds %r: rule %r refs %r, git %r refs %r" %
+                                 (st, with_c2, cmds, want, refs, got, gitrefs))
+        return ran, mism
+
     def extra(self, ctx, cases, impl, model):
         acts = {"create": 0, "update": 0, "delete": 0, "invalid": 0}
         for c in cases:
             for _, o, n in c["cmds"]:
                 acts["invalid" if o < 0 and n < 0 else "create" if o < 0 else "delete" if n < 0 else "update"] += 1
-        return {"commands_by_action": acts}
+        ev = {"commands_by_action": acts}
+        try:
+            ran, mism = self.cgit(ctx, 40 if ctx.tier == "quick" else 300)
+            ev.update({"rule_vs_git_receive_pack_cases": ran, "spec_mismatches": mism})
+        except Exception as e:
+            ctx.notes.append("C-git suite could not run: %r" % (e,))
+            ev.update({"rule_vs_git_receive_pack_cases": 0, "spec_mismatches": 0})
+        return ev
 
 
 SUITES = [Main()]
